@@ -89,6 +89,30 @@ Example C06_per_bit_precise_ex :
   /\ comb_edges (CAssign [NL 1; NL 2] [(NL 9, 1, [NL 5])]) 1 = [NL 2; NL 9; NL 5].
 Proof. vm_compute. repeat split. Qed.
 
+(* ---------------------------------------------------------------- design level *)
+(* For ALL designs of the statement language of Model/Nir.v Part III (wiring / bit-precise / word-level expressions,
+   targets that read signals through a part-select offset or an array index, flip-flops with clock and asynchronous
+   reset, read ports, I/O buffers; any number of statements): the oracle the harness runs next to the real emitter and
+   checker — dependency graph, one word-level cell per driven bit, then the verified DFS — answers "cyclic" exactly
+   when some signal bit depends on itself through >= 1 step of the dependency SPEC dep1.  (That the real
+   emit_rhs / emit_assign produce a netlist with these dependencies is what the differential run compares.) *)
+Theorem C06_design_cyclicb_iff : forall sts, design_cyclicb sts = true <-> design_cyclic sts.
+Proof. exact design_cyclicb_iff. Qed.
+Print Assumptions C06_design_cyclicb_iff.
+Example C06_design_cyclicb_ex :
+  (* s.bit_select(s[0:2], 1).eq(1): every bit of s depends on s[0:2] through the target's offset *)
+  design_cyclicb [CSAssign None (CTPart 0 0 4 (XSl 0 0 2) 1 1) (XConst 1) None] = true
+  /\ design_cyclicb [CSAssign None (CTPart 0 2 4 (XSl 0 0 2) 1 1) (XConst 1) None] = false
+  (* a register clocked by a gate on its own output; the same with the clock from an input *)
+  /\ design_cyclicb [CSAssign (Some [(8, 0)]) (CTSl 0 0 1) (XConst 1) None;
+                     CSAssign None (CTSl 8 0 1) (XBw (XSl 0 0 1) (XSl 2 0 1)) None] = true
+  /\ design_cyclicb [CSAssign (Some [(8, 0)]) (CTSl 0 0 1) (XNot (XSl 0 0 1)) None;
+                     CSAssign None (CTSl 8 0 1) (XSl 2 0 1) None] = false
+  (* a = a << s is cyclic, a[1:4] = ~a[0:3] is not *)
+  /\ design_cyclicb [CSAssign None (CTSl 0 0 4) (XW2 X_shl (XSl 0 0 4) (XSl 2 0 2)) None] = true
+  /\ design_cyclicb [CSAssign None (CTSl 0 1 4) (XNot (XSl 0 0 3)) None] = false.
+Proof. vm_compute. repeat split. Qed.
+
 (* ---------------------------------------------------------------- drivers *)
 
 (* For ALL well-formed targets t (any nesting of Slice / Part / Cat / array element / casts, any widths,
@@ -104,6 +128,19 @@ Example C06_emit_assign_spec_ex :
   let t := TCat [TPart (TSlice (TSig 0 8) 2 8) 2 3 2; TSwitch 2 [TSlice (TSig 1 4) 1 3; TSig 2 2]] in
   wf_tgt t = true /\ tlen t = 5
   /\ emit_assign t 0 5 = [AR 0 8 2 3; AR 0 8 4 3; AR 0 8 6 2; AR 1 4 1 2; AR 2 2 0 2].
+Proof. vm_compute. repeat split. Qed.
+
+(* The same for every target the public API builds, INCLUDING arrays whose elements have different widths
+   (ArrayProxy pushes slices / part-selects into the elements, so a SwitchValue with narrower elements is only
+   assigned from position 0, possibly through Cat parts and casts): whole assignments cover exactly may_drive. *)
+Theorem C06_emit_assign_spec_top : forall t, wf_tgt_top t = true -> forall s b,
+  (covered (emit_assign t 0 (tlen t)) s b <-> may_drive t s b).
+Proof. exact emit_assign_spec_top. Qed.
+Print Assumptions C06_emit_assign_spec_top.
+Example C06_emit_assign_spec_top_ex :
+  let t := TCat [TSwitch 4 [TSig 1 2; TSig 2 4]; TCast (TSwitch 3 [TSlice (TSig 3 8) 1 4; TSig 4 1])] in
+  wf_tgt_top t = true /\ wf_tgt t = false
+  /\ emit_assign t 0 (tlen t) = [AR 1 2 0 2; AR 2 4 0 4; AR 3 8 1 3; AR 4 1 0 1].
 Proof. vm_compute. repeat split. Qed.
 
 (* For ALL targets: the computable form used by conflictb (and run by the harness) is the declarative spec *)
@@ -163,6 +200,24 @@ Theorem C06_early_conflict_refuted :
   /\ driver_table (Design (FMod [] [FMod [(0, TPart (TSig 0 8) 1 2 2)] []; FMod [(1, TSlice (TSig 0 8) 4 8)] []]) []) = None.
 Proof. exact early_conflict_refuted. Qed.
 Print Assumptions C06_early_conflict_refuted.
+
+(* For ALL statement lists of one module (any targets, domains, order): Module._add_statement raises its early
+   "Driver-driver conflict" SyntaxError exactly when two statements of DIFFERENT domains have a common bit in their
+   LHSMaskCollector masks (mbits: slices exact, Cat distributes, array element = every element, Part = its whole
+   operand — which is where S2 comes from: see the Example). *)
+Theorem C06_early_conflict_iff : forall stmts,
+  early_conflict stmts <> None <->
+  exists x d1 t1 d2 t2, d1 <> d2 /\ In (d1, t1) stmts /\ In (d2, t2) stmts /\ In x (mbits t1) /\ In x (mbits t2).
+Proof. exact early_conflict_iff. Qed.
+Print Assumptions C06_early_conflict_iff.
+Example C06_early_conflict_iff_ex :
+  mbits (TPart (TSig 0 8) 1 2 2) = [(0,0);(0,1);(0,2);(0,3);(0,4);(0,5);(0,6);(0,7)]
+  /\ mbits (TSlice (TSig 0 8) 4 8) = [(0,4);(0,5);(0,6);(0,7)]
+  /\ mbits (TCat [TSlice (TSig 0 8) 1 3; TSwitch 2 [TSlice (TSig 1 4) 0 2; TSlice (TSig 2 4) 2 4]])
+     = [(0,1);(0,2);(1,0);(1,1);(2,2);(2,3)]
+  /\ early_conflict [(0, TSlice (TSig 0 8) 0 4); (1, TSlice (TSig 0 8) 4 8); (0, TSig 1 2)] = None
+  /\ early_conflict [(0, TSlice (TSig 0 8) 0 5); (0, TSig 1 2); (1, TSlice (TSig 0 8) 4 8)] = Some (0, 4).
+Proof. vm_compute. repeat split. Qed.
 
 (* marginal: a zero-width target creates a bit-less sole driver, which emit_drivers widens to the whole
    signal; with the signal declared an Input port this is a DriverConflict although no bit has two sources *)
